@@ -79,7 +79,9 @@ def gen_binding(rng, sig, values=None):
         extra_pos = [rng.choice(values) for _ in range(rng.randint(1, 2))]
     extra_kw = {}
     if any(s[0] == "W" for s in sig) and rng.random() < 0.6:
-        for k in rng.sample(["zz", "yy", "aa"], rng.randint(1, 2)):
+        # surplus keywords; a keyword may legally repeat the NAME of a positional-only parameter (it lands in **kw)
+        names = ["zz", "yy", "aa"] + [s[1] for s in sig if s[0] == "P"] * 2
+        for k in set(rng.sample(names, min(len(names), rng.randint(1, 2)))):
             extra_kw[k] = rng.choice(values)
     return dict(b=b, extra_pos=extra_pos, extra_kw=extra_kw)
 
